@@ -6,6 +6,7 @@ Model side: `Geodesy/Model/Num/Grid.lean` (`contains`, `at`, `grids_at`, Gravsof
 `grid/ntv2/*`.  The theorems below are in the real-number reading.
 -/
 import Geodesy.Model.Num.Ntv2
+import Geodesy.Model.Ops.GridOps
 import Geodesy.Lemmas.Real
 import Mathlib.Tactic.Linarith
 
@@ -148,6 +149,53 @@ theorem swap_pairs_spec (a b c d : ℝ) : swapPairs [a, b, c, d] = [b, a, d, c] 
 
 /-- three bands: (north, east, up) becomes (east, north, up) -/
 theorem swap_triples_spec (a b c d e f : ℝ) : swapFirstTwoOfThree [a, b, c, d, e, f] = [b, a, c, e, d, f] := rfl
+
+/-! ### the grid operators -/
+
+open Ops in
+/-- **deformation searches its grids exactly like `grids_at` without the null grid**: the two
+nested loops of the operator (margin 0 over all grids, then margin 0.5) are the two passes -/
+theorem deformation_first_hit (gs : List (GridObj ℝ)) (lon lat : ℝ) :
+    Deformation.firstHit gs lon lat = gridsAtObjs gs lon lat false := by
+  simp only [Deformation.firstHit, gridsAtObjs, gridsAt, List.findSome?_map, Function.comp_def]
+  have h0 : (@OfScientific.ofScientific ℝ Scalar.instOfScientific 0 true 1) = Grid.n 0 := by
+    simp [OfScientific.ofScientific, Scalar.ofSci, Lit.toReal, Grid.n]
+  have h5 : (@OfScientific.ofScientific ℝ Scalar.instOfScientific 5 true 1) = Scalar.ofLit (.fin false 5 (-1)) := by
+    simp [OfScientific.ofScientific, Scalar.ofSci]
+  rw [h0, h5]
+  cases List.findSome? (fun g => g.look lon lat (Grid.n 0)) gs with
+  | some d => rfl
+  | none =>
+    cases List.findSome? (fun g => g.look lon lat (Scalar.ofLit (.fin false 5 (-1)))) gs <;> rfl
+
+open Ops in
+/-- **forward datum shifts ADD the correction of the first grid hit, geoid heights are
+SUBTRACTED; with the null grid a point outside every grid passes unchanged; without it the
+point is failed** (gridshift, two-band and one-band grids) -/
+theorem gridshift_fwd_spec (gs : List (GridObj ℝ)) (c : Coor ℝ) :
+    (∀ d, gridsAtObjs gs c.c0 c.c1 false = some d → (gs.head?.map (·.bands)) ≠ some 1 →
+      Gridshift.fwd gs false c = some { c with c0 := c.c0 + d.c0, c1 := c.c1 + d.c1 }) ∧
+    (∀ d, gridsAtObjs gs c.c0 c.c1 false = some d → (gs.head?.map (·.bands)) = some 1 →
+      Gridshift.fwd gs false c = some { c with c2 := c.c2 - d.c0 }) ∧
+    (gridsAtObjs gs c.c0 c.c1 false = none → Gridshift.fwd gs false c = none) ∧
+    ((∀ g ∈ gs, ∀ m, g.look c.c0 c.c1 m = none) → (gs.head?.map (·.bands)) ≠ some 1 →
+      Gridshift.fwd gs true c = some c) := by
+  refine ⟨?_, ?_, ?_, ?_⟩
+  · intro d hd hb
+    simp [Gridshift.fwd, hd, hb]
+  · intro d hd hb
+    simp [Gridshift.fwd, hd, hb]
+  · intro hn
+    simp [Gridshift.fwd, hn]
+  · intro hout hb
+    have : gridsAtObjs gs c.c0 c.c1 true = some ⟨Grid.n 0, Grid.n 0, Grid.n 0, Grid.n 0⟩ := by
+      unfold gridsAtObjs
+      exact (outside_all _ (by
+        intro f hf m
+        simp only [List.mem_map] at hf
+        obtain ⟨g, hg, rfl⟩ := hf
+        exact hout g hg m)).2
+    simp [Gridshift.fwd, this, hb, Grid.n]
 
 /-! ### non-vacuity -/
 
